@@ -274,3 +274,136 @@ FUNCTIONS = [CLS + '.' + q for q in (
     '__init__', 'y.setter', 'x.setter', 'corr', 'estimate_required_impact',
     'required_impact', 'pretestfit', 'bbtest', 'tbrfit', 'dwtest', 'aatest',
     'corr_test', 'tests_ok')]
+
+# ---------------------------------------------------------------------------
+# C05 / C06: the closed forms of the design-side formulas, written from the
+# documentation (Kerman 2017 / Au 2018 as quoted in the docstrings), not from
+# the code: sigma-free multiplier, required impact, TBR point estimate, scale
+# and half-width.
+
+from mmverif.engine.lib import uf as _uf  # noqa: E402
+
+
+def _sqrt(t):
+  return _uf('numpy.sqrt', [t], R)
+
+
+def _tq(p, df):
+  """scipy.stats.t.ppf(p, df=df) in the ledger's argument order."""
+  return _uf('scipy.stats.t.ppf', [p, df], R)
+
+
+def _phi(n, flevel):
+  d = _uf('stats_f', [z3.IntVal(1), n - 1], sort_named('Dist'))
+  return _uf('dist_ppf', [d, flevel], R)
+
+
+def _std2(y):
+  return _uf('numpy.std', [y, z3.IntVal(2)], R)
+
+
+def _var0(x):
+  return _uf('numpy.var', [x, z3.IntVal(0)], R)
+
+
+def radicand(n, n_test, phi):
+  n, n_test = z3.ToReal(n), z3.ToReal(n_test)
+  return phi * (n + 1) / (n * n_test * (n - 1)) + 1 / n + 1 / n_test
+
+
+def required_impact_formula(y, par, corr):
+  n = LEN(y)
+  nt = N(par.n_test)
+  q = _tq(N(par.sig_level), n - 2) + _tq(N(par.power_level), n - 2)
+  return q * z3.ToReal(nt) * _sqrt(radicand(n, nt, _phi(n, N(par.flevel)))) * (
+      _std2(y) * _sqrt(1 - corr * corr))
+
+
+def _est_closed_form(s):
+  y = unwrap(s.self._y).val.t
+  return N(s.result) == required_impact_formula(y, s.self._par, N(s.corr))
+
+
+dspec.contracts[CLS + '.estimate_required_impact'].ensures.extend(
+    __import__('mmverif.engine.specs', fromlist=['clauses']).clauses([
+        ('C05 closed form: (t-quantile at sig_level + t-quantile at '
+         'power_level, n-2 d.f.) x n_test x sqrt(phi (n+1)/(n n_test (n-1)) + '
+         '1/n + 1/n_test) x residual s.d.', _est_closed_form, ('C05',))],
+                                                               ('C05',)))
+
+
+def _tbrfit_closed_form(s):
+  o = s.self
+  x, y = unwrap(o._x).val.t, unwrap(o._y).val.t
+  par = o._par
+  n = LEN(x)
+  nt = z3.ToReal(N(par.n_test))
+  fit = unwrap(F('pretestfit', o)).val           # (a, b, sigma, resid)
+  b, sigma = N(fit.items[1]), N(fit.items[2])
+  dx = N(s.xt) - MEAN(x)
+  dy = N(s.yt) - MEAN(y)
+  scale = nt * sigma * _sqrt((1 + dx * dx / _var0(x)) / z3.ToReal(n) + 1 / nt)
+  r = unwrap(s.result)
+  return z3.Or(r.none, z3.And(
+      N(r.val.items[0]) == nt * (dy - b * dx),
+      N(r.val.items[3]) == scale,
+      N(r.val.items[1]) == _tq(N(par.sig_level), n - 2) * scale,
+      N(r.val.items[2]) == sigma))
+
+
+dspec.contracts[CLS + '.tbrfit'].ensures.extend(
+    __import__('mmverif.engine.specs', fromlist=['clauses']).clauses([
+        ('C06 design-side TBR fit: estimate n_test (dy - b dx), scale n_test '
+         'sigma sqrt((1 + dx^2/var0(x))/n + 1/n_test), half-width = t-quantile '
+         'x scale', _tbrfit_closed_form, ('C05', 'C06'))], ('C06',)))
+
+
+def lemma_calibration(ctx):
+  """Code-independent: at the displacement dx*^2 = phi (n+1) var0 / (n_test
+  (n-1)) the TBR scale radicand equals the planning radicand, hence required
+  impact = (q_sig + q_pow) x SCALE(dx*) when the fit's residual s.d. is
+  std(y, ddof=2) sqrt(1 - corr^2)."""
+  n, nt = z3.Ints('n nt')
+  phi, var0, dx2, sig = z3.Reals('phi var0 dx2 sigma')
+  hyps = [n >= 3, nt >= 1, var0 > 0, phi >= 0,
+          dx2 == phi * (z3.ToReal(n) + 1) * var0 / (z3.ToReal(nt) * (
+              z3.ToReal(n) - 1))]
+  goal = (1 + dx2 / var0) / z3.ToReal(n) + 1 / z3.ToReal(nt) == radicand(
+      n, nt, phi)
+  return hyps, goal
+
+
+def lemma_monotone(ctx):
+  """Residual of the C05 monotonicity clause: for q_sig + q_pow > 0 the
+  required impact strictly decreases in |corr| (sqrt strictly increasing)."""
+  q, a, c1, c2 = z3.Reals('q A c1 c2')
+  s = z3.Function('numpy.sqrt', R, R)
+  u, v = z3.Reals('u v')
+  hyps = [q > 0, a > 0, c1 * c1 < c2 * c2, c2 * c2 < 1,
+          z3.ForAll([u, v], z3.Implies(z3.And(u >= 0, u < v), s(u) < s(v))),
+          z3.ForAll([u], z3.Implies(u >= 0, s(u) >= 0))]
+  goal = q * a * s(1 - c1 * c1) > q * a * s(1 - c2 * c2)
+  return hyps, goal
+
+
+def lemma_monotone_all_levels(ctx):
+  """The clause as the statement has it (all levels in (0,1)): not provable,
+  q_sig + q_pow may be <= 0 - the known finding C05:sig+power<=1."""
+  q, a, c1, c2 = z3.Reals('q A c1 c2')
+  s = z3.Function('numpy.sqrt', R, R)
+  u, v = z3.Reals('u v')
+  hyps = [a > 0, c1 * c1 < c2 * c2, c2 * c2 < 1,
+          z3.ForAll([u, v], z3.Implies(z3.And(u >= 0, u < v), s(u) < s(v))),
+          z3.ForAll([u], z3.Implies(u >= 0, s(u) >= 0))]
+  goal = q * a * s(1 - c1 * c1) > q * a * s(1 - c2 * c2)
+  return hyps, goal
+
+
+LEMMAS = [
+    ('C05 calibration: planning radicand = TBR scale radicand at the '
+     'F-quantile displacement', lemma_calibration, ('C05',)),
+    ('C05 required impact strictly decreases in |corr| when the quantile sum '
+     'is positive (sig_level + power_level > 1)', lemma_monotone, ('C05',)),
+    ('C05 strictly decreasing in |corr| for all levels',
+     lemma_monotone_all_levels, ('C05',)),
+]
